@@ -473,6 +473,14 @@ func caseC10CloseRetry(t TB, prog *Program) {
 			}
 			acknowledged := err1 == nil
 			if err1 != nil {
+				if k%2 == 1 && n > 0 {
+					// before trying again the application writes once more (accepted or not)
+					u := &Doc{I64: 7000, S: "after-failed-close"}
+					u.Initialize(objs[n-1].UUID())
+					if db.InsertOrUpdate(u) == nil {
+						want[u.UUID()] = 7000
+					}
+				}
 				acknowledged = db.Close() == nil // the application tries again
 			}
 			flags := map[string]int{"close-met-a-storage-fault": 1}
